@@ -47,12 +47,26 @@ impl Outcome {
 
 /// One `decode_next_picture` call on a fresh reader over `bytes`.
 pub fn decode_bytes(st: &mut H263State, bytes: &[u8]) -> Outcome {
+    // the input slice starts at a changing byte offset of its buffer: where the bytes lie in memory
+    // must not matter (small inputs only; large ones are not copied)
+    if bytes.len() <= 4096 {
+        let off = PLACE.with(|c| {
+            let v = c.get();
+            c.set((v + 5) % 16);
+            v
+        });
+        let mut buf = vec![0xEEu8; bytes.len() + 16];
+        buf[off..off + bytes.len()].copy_from_slice(bytes);
+        let mut rd = H263Reader::from_source(&buf[off..off + bytes.len()]);
+        return decode_with(st, &mut rd);
+    }
     let mut rd = H263Reader::from_source(bytes);
     decode_with(st, &mut rd)
 }
 
 thread_local! {
     static POISON: std::cell::Cell<u8> = const { std::cell::Cell::new(0xA5) };
+    static PLACE: std::cell::Cell<usize> = const { std::cell::Cell::new(0) };
 }
 
 /// Dirty the allocator's free lists with buffers of the sizes the next picture's planes will
